@@ -552,6 +552,8 @@ class CT:
         raise Unsupported("tensor binary op %s" % type(op).__name__)
 
     def __vc_binop__(self, I, op, other, reflected):
+        if isinstance(op, ast.MatMult) and isinstance(other, CT):  # a @ b = torch.matmul(a, b)
+            return METHODS["matmul"](I, other, self) if reflected else METHODS["matmul"](I, self, other)
         if isinstance(other, (CT, int, float, bool, Fraction)) or is_z3(other):
             return self.binop(op, other, reflected)
         return NotImplemented
